@@ -245,125 +245,8 @@ func runC11(c *Ctx) {
 	}
 
 	// ---------- C11.c ----------
-	c.clause("C11.c", "T2", "the release closure of an LRU Get is invoked only from the returned reader's closeFunc; in the commit path it is deferred until the cached buffer has been written out", 3)
-	if f := c.mustFn(cp, "(*directoryCache).Get"); f != nil {
-		for _, g := range callsIn(f, idIs("util/cacheutil.(*LRUCache).Get")) {
-			done := resultN(g, 1)
-			val := resultN(g, 0)
-			key := c.fnKey(f) + ":done-of-LRU.Get"
-			if done == nil {
-				c.bad(key, g.Pos(), "release closure discarded")
-				continue
-			}
-			bad := ""
-			holder := false
-			refs := append([]ssa.Instruction{}, *done.Referrers()...)
-			// done is captured: it lives in a cell; follow the cell's uses (closures binding it, loads that call it)
-			for _, r := range *done.Referrers() {
-				if st, ok := r.(*ssa.Store); ok && st.Val == done {
-					if cell, ok := st.Addr.(*ssa.Alloc); ok {
-						for _, cr := range *cell.Referrers() {
-							switch y := cr.(type) {
-							case *ssa.MakeClosure:
-								refs = append(refs, y)
-							case *ssa.UnOp:
-								for _, lr := range *y.Referrers() {
-									if ci, ok := lr.(ssa.CallInstruction); ok && ci.Common().Value == ssa.Value(y) {
-										bad = "the LRU reference is released inside Get (before the caller finished reading): the buffer/descriptor can be recycled or closed under the reader"
-									}
-								}
-							}
-						}
-					}
-				}
-			}
-			for _, r := range refs {
-				switch x := r.(type) {
-				case *ssa.MakeClosure:
-					// the closure must be stored into reader.closeFunc of a reader whose ReaderAt derives from val
-					lit := x.Fn.(*ssa.Function)
-					stored := false
-					for _, u := range *x.Referrers() {
-						if st, ok := u.(*ssa.Store); ok {
-							if fa, ok := st.Addr.(*ssa.FieldAddr); ok && fieldName(fa) == "closeFunc" {
-								stored = true
-								// sibling ReaderAt store derives from val
-								eachInstr(f, func(j ssa.Instruction) {
-									if st2, ok := j.(*ssa.Store); ok {
-										if fa2, ok := st2.Addr.(*ssa.FieldAddr); ok && fa2.X == fa.X && fieldName(fa2) == "ReaderAt" {
-											if derivesFromValue(st2.Val, val, 0) || derivesViaCell(st2.Val, val) {
-												holder = true
-											}
-										}
-									}
-								})
-							}
-						}
-					}
-					if !stored {
-						bad = "release closure captured by a literal that is not the reader's closeFunc"
-					}
-					_ = lit
-				case ssa.CallInstruction:
-					if x.Common().Value == done {
-						bad = "the LRU reference is released inside Get (before the caller finished reading): the buffer/descriptor can be recycled or closed under the reader"
-					}
-				case *ssa.DebugRef:
-				default:
-				}
-			}
-			c.verdict(key, g.Pos(), bad == "" && holder, "reference kept until the reader is closed; reader serves the value of that same Get", firstNonEmpty(bad, "release closure is not tied to a reader over the cached value"))
-		}
-	}
-	if f := c.mustFn(cp, "(*directoryCache).Add"); f != nil {
-		for _, lit := range withAnon(f) {
-			for _, a := range callsIn(lit, idIs("util/cacheutil.(*LRUCache).Add")) {
-				if root := c.fnKey(enclosingRoot(lit)); root != cp+".(*directoryCache).Add" {
-					continue
-				}
-				done := resultN(a, 1)
-				cached := resultN(a, 0)
-				if done == nil || cached == nil {
-					continue
-				}
-				// done must be deferred (or called) only in a literal, and that literal's uses of `cached` precede
-				good := false
-				for _, g := range withAnon(lit) {
-					eachInstr(g, func(i ssa.Instruction) {
-						if d, ok := i.(*ssa.Defer); ok {
-							if p, ok := loadOf(stripConv(d.Call.Value)); ok {
-								if cr := cellRoot(p); cr != nil {
-									for _, st := range storesToCell(enclosingRoot(lit), cr) {
-										if stripConv(st.Val) == done {
-											good = true
-										}
-									}
-								}
-							}
-							if d.Call.Value == done {
-								good = true
-							}
-						}
-					})
-				}
-				c.verdict(c.fnKey(lit)+":done-of-LRU.Add", a.Pos(), good, "reference to the cached buffer released by defer after it was written to the file", "the cached buffer's reference is released before it has been written out (eviction can recycle it mid-write)")
-				// the bytes persisted are those of the buffer the LRU returned (on a duplicate Add the writer's own buffer was just recycled)
-				persistOK, nWr := true, 0
-				for _, g := range withAnon(lit) {
-					for _, wc := range callsIn(g, func(id string, ci ssa.CallInstruction) bool {
-						o := calleeObj(ci)
-						return o != nil && o.Name() == "Write" && ci.Common().IsInvoke()
-					}) {
-						nWr++
-						if !derivesFromValue(wc.Common().Args[0], cached, 0) && !derivesViaCell(wc.Common().Args[0], cached) {
-							persistOK = false
-						}
-					}
-				}
-				c.verdict(c.fnKey(lit)+":persist-cached-buffer", a.Pos(), persistOK && nWr > 0, "the file receives the bytes of the buffer owned by the LRU", "the file is written from the writer's own buffer instead of the buffer the LRU returned: after a duplicate Add the persisted value is empty/foreign")
-			}
-		}
-	}
+	clauseCacheReleaseDiscipline(c, "C11.c")
+	clauseKeyInjective(c, "C11.f", [][2]string{{"fs/reader", "genID"}, {"fs/remote", "(*httpFetcher).genID"}})
 
 	// ---------- C11.d ----------
 	c.clause("C11.d", "T3+T1", "sync.Pool.Put only after Reset of the same buffer, only in putBuffer and the eviction hooks; on a duplicate Add only the rejected buffer is recycled, on the !added edge", 4)
@@ -531,123 +414,9 @@ func runC12(c *Ctx) {
 	res := c.pkgFuncs(lp)
 
 	// ---------- C12.a ----------
-	c.clause("C12.a", "T2+T9", "every TTLCache.Get/Add in fs/layer: the release closure goes into a returned reference holding the value of the same cache call, or is called on every other path", 4)
-	refTypes := map[string]bool{lp + ".layerRef": true, lp + ".blobRef": true}
-	for _, f := range res {
-		for _, g := range callsIn(f, idIs("util/cacheutil.(*TTLCache).Get", "util/cacheutil.(*TTLCache).Add")) {
-			isGet := strings.HasSuffix(calleeID(g), ".Get")
-			val, done, flag := resultN(g, 0), resultN(g, 1), resultN(g, 2)
-			key := c.fnKey(f) + ":" + map[bool]string{true: "Get", false: "Add"}[isGet] + "-ownership"
-			if done == nil || val == nil {
-				c.bad(key, g.Pos(), "release closure or value discarded")
-				continue
-			}
-			// returns that hand the pair out
-			var handouts []ssa.Instruction
-			pairOK := true
-			for _, r := range realReturns(f) {
-				for _, v := range retVals(r, 0) {
-					al, ok := stripConv(v).(*ssa.Alloc)
-					if !ok || !refTypes[typeQName(al.Type())] {
-						continue
-					}
-					var dSt, vSt ssa.Value
-					for _, ref := range *al.Referrers() {
-						if fa, ok := ref.(*ssa.FieldAddr); ok {
-							for _, rr := range *fa.Referrers() {
-								if st, ok := rr.(*ssa.Store); ok {
-									if fieldName(fa) == "done" {
-										dSt = st.Val
-									} else {
-										vSt = st.Val
-									}
-								}
-							}
-						}
-					}
-					if dSt != nil && sameValue(dSt, done) {
-						handouts = append(handouts, r)
-						if vSt == nil || !derivesFromValue(vSt, val, 0) {
-							pairOK = false
-						}
-					}
-				}
-			}
-			callsOfDone := callsIn(f, func(id string, ci ssa.CallInstruction) bool { return sameValue(ci.Common().Value, done) })
-			// from the edge where the entry exists (Get: ok true; Add: always), every return is a handout or passed a call of done
-			var starts []ssa.Instruction
-			if isGet && flag != nil {
-				for _, e := range boolEdges(f, flag, true) {
-					starts = append(starts, f.Blocks[e.from].Succs[e.succ].Instrs[0])
-				}
-			} else {
-				// after the Add call
-				starts = append(starts, g)
-			}
-			leak := false
-			var lp2 []int
-			for _, s := range starts {
-				k := newCuts().addCalls(callsOfDone)
-				if k.instrs[s] {
-					continue
-				}
-				isLeakReturn := func(i ssa.Instruction) bool {
-					if !isReturn(i) {
-						return false
-					}
-					for _, h := range handouts {
-						if h == i {
-							return false
-						}
-					}
-					return true
-				}
-				if got, path := reach(f, s, isLeakReturn, k); got != nil {
-					leak = true
-					lp2 = path
-				}
-			}
-			c.verdict(key, g.Pos(), !leak && pairOK && len(handouts) > 0, "the reference is handed out together with the value of the same cache call, or released on every other path", firstNonEmpty(map[bool]string{true: "a path keeps the cache reference without handing it out or releasing it (the layer/blob can never be finalised): " + c.pathStr(f, lp2)}[leak], "the returned reference pairs the release closure with a value that is not the one returned by that cache call (the redundant, already closed object is handed out)"))
-			if !isGet && flag != nil {
-				// redundant object closed exactly on the !added edge
-				ne := boolEdges(f, flag, false)
-				arg := g.Common().Args[2]
-				var closes []ssa.CallInstruction
-				for _, ci := range callsIn(f, func(id string, ci ssa.CallInstruction) bool {
-					o := calleeObj(ci)
-					if o == nil || (o.Name() != "close" && o.Name() != "Close") {
-						return false
-					}
-					var recv ssa.Value
-					if ci.Common().IsInvoke() {
-						recv = ci.Common().Value
-					} else if len(ci.Common().Args) > 0 {
-						recv = ci.Common().Args[0]
-					}
-					return recv != nil && (sameValue(recv, stripConv(arg)) || derivesFromValue(arg, recv, 0))
-				}) {
-					if _, isDefer := ci.(*ssa.Defer); !isDefer {
-						closes = append(closes, ci)
-					}
-				}
-				good := len(closes) == 1 && len(ne) > 0
-				if good {
-					okp, _ := mustPass(f, closes[0], newCuts().addEdges(ne))
-					good = okp
-					// and on the !added edge it is always closed
-					for _, e := range ne {
-						first := f.Blocks[e.from].Succs[e.succ].Instrs[0]
-						if first != ssa.Instruction(closes[0]) {
-							if got, _ := reach(f, first, isReturn, newCuts().addInstr(closes[0])); got != nil {
-								good = false
-							}
-						}
-					}
-				}
-				c.verdict(c.fnKey(f)+":redundant-closed", g.Pos(), good, "the redundant object is closed exactly on the !added edge", "the redundant object of a duplicate Add is not closed exactly on the !added edge (leak, or the cached object is closed)")
-			}
-		}
-	}
+	clauseTTLOwnership(c, "C12.a")
+
+	clauseMountRegistrationRolledBack(c, "C12.g")
 
 	// ---------- C12.b ----------
 	c.clause("C12.b", "T2", "resources acquired during Resolve/resolveBlob are released on every later error exit (deferred, guarded by the named error result)", 3)
@@ -770,20 +539,44 @@ func runC12(c *Ctx) {
 				good = false
 			}
 		}
-		// blob reference dropped by defer (runs after the closes)
+		// blob reference dropped last: by a defer registered before the closes, or by an explicit call after which no
+		// close can run and which every exit behind the gate passes
 		blobLast := false
+		closers := append([]ssa.CallInstruction{}, work...)
+		closers = append(closers, callsIn(f, func(id string, ci ssa.CallInstruction) bool {
+			return ci.Common().IsInvoke() && ci.Common().Method.Name() == "Close"
+		})...)
 		eachInstr(f, func(i ssa.Instruction) {
-			if d, ok := i.(*ssa.Defer); ok {
-				if fa, ok := isFieldLoadAny(d.Call.Value, "done"); ok {
-					if _, ok := isFieldLoad(fa.X, lp+".layer", "blob"); ok {
-						if k, ok := d.Call.Args[0].(*ssa.Const); ok && k.Value != nil && k.Value.String() == "true" {
-							blobLast = len(work) == 1 && dominatesInstr(d, work[0])
-							if okp, _ := mustPass(f, d, newCuts().addEdges(already)); !okp {
-								blobLast = false
-							}
-						}
+			ci, ok := i.(ssa.CallInstruction)
+			if !ok {
+				return
+			}
+			fa, ok := isFieldLoadAny(ci.Common().Value, "done")
+			if !ok {
+				return
+			}
+			if _, ok := isFieldLoad(fa.X, lp+".layer", "blob"); !ok {
+				return
+			}
+			if k, ok := ci.Common().Args[0].(*ssa.Const); !ok || k.Value == nil || k.Value.String() != "true" {
+				return
+			}
+			gated, _ := mustPass(f, i, newCuts().addEdges(already))
+			switch i.(type) {
+			case *ssa.Defer:
+				blobLast = gated && len(work) == 1 && dominatesInstr(i, work[0])
+			case *ssa.Call:
+				okAll := gated && len(work) == 1 && dominatesInstr(work[0], i)
+				for _, cl := range closers {
+					if hit, _ := reach(f, i, isInstr(cl), nil); hit != nil {
+						okAll = false
 					}
 				}
+				// every exit after the reader was closed releases the blob
+				if hit, _ := reach(f, work[0], isReturn, newCuts().addInstr(i)); hit != nil {
+					okAll = false
+				}
+				blobLast = okAll
 			}
 		})
 		// closed set before closing
@@ -924,4 +717,276 @@ func derivesViaCell(v, src ssa.Value) bool {
 		}
 	}
 	return false
+}
+
+// clauseCacheReleaseDiscipline: who releases an LRU reference of the directory cache, and when (shared by C11 and C10).
+func clauseCacheReleaseDiscipline(c *Ctx, id string) {
+	const cp = "cache"
+	c.clause(id, "T2", "the release closure of an LRU Get is invoked only from the returned reader's closeFunc; in the commit path it is deferred until the cached buffer has been written out", 3)
+	if f := c.mustFn(cp, "(*directoryCache).Get"); f != nil {
+		for _, g := range callsIn(f, idIs("util/cacheutil.(*LRUCache).Get")) {
+			done := resultN(g, 1)
+			val := resultN(g, 0)
+			key := c.fnKey(f) + ":done-of-LRU.Get"
+			if done == nil {
+				c.bad(key, g.Pos(), "release closure discarded")
+				continue
+			}
+			bad := ""
+			holder := false
+			refs := append([]ssa.Instruction{}, *done.Referrers()...)
+			// done is captured: it lives in a cell; follow the cell's uses (closures binding it, loads that call it)
+			for _, r := range *done.Referrers() {
+				if st, ok := r.(*ssa.Store); ok && st.Val == done {
+					if cell, ok := st.Addr.(*ssa.Alloc); ok {
+						for _, cr := range *cell.Referrers() {
+							switch y := cr.(type) {
+							case *ssa.MakeClosure:
+								refs = append(refs, y)
+							case *ssa.UnOp:
+								for _, lr := range *y.Referrers() {
+									if ci, ok := lr.(ssa.CallInstruction); ok && ci.Common().Value == ssa.Value(y) {
+										bad = "the LRU reference is released inside Get (before the caller finished reading): the buffer/descriptor can be recycled or closed under the reader"
+									}
+								}
+							}
+						}
+					}
+				}
+			}
+			for _, r := range refs {
+				switch x := r.(type) {
+				case *ssa.MakeClosure:
+					// the closure must be stored into reader.closeFunc of a reader whose ReaderAt derives from val
+					lit := x.Fn.(*ssa.Function)
+					stored := false
+					for _, u := range *x.Referrers() {
+						if st, ok := u.(*ssa.Store); ok {
+							if fa, ok := st.Addr.(*ssa.FieldAddr); ok && fieldName(fa) == "closeFunc" {
+								stored = true
+								// sibling ReaderAt store derives from val
+								eachInstr(f, func(j ssa.Instruction) {
+									if st2, ok := j.(*ssa.Store); ok {
+										if fa2, ok := st2.Addr.(*ssa.FieldAddr); ok && fa2.X == fa.X && fieldName(fa2) == "ReaderAt" {
+											if derivesFromValue(st2.Val, val, 0) || derivesViaCell(st2.Val, val) {
+												holder = true
+											}
+										}
+									}
+								})
+							}
+						}
+					}
+					if !stored {
+						bad = "release closure captured by a literal that is not the reader's closeFunc"
+					}
+					_ = lit
+				case ssa.CallInstruction:
+					if x.Common().Value == done {
+						bad = "the LRU reference is released inside Get (before the caller finished reading): the buffer/descriptor can be recycled or closed under the reader"
+					}
+				case *ssa.DebugRef:
+				default:
+				}
+			}
+			c.verdict(key, g.Pos(), bad == "" && holder, "reference kept until the reader is closed; reader serves the value of that same Get", firstNonEmpty(bad, "release closure is not tied to a reader over the cached value"))
+		}
+	}
+	if f := c.mustFn(cp, "(*directoryCache).Add"); f != nil {
+		for _, lit := range withAnon(f) {
+			for _, a := range callsIn(lit, idIs("util/cacheutil.(*LRUCache).Add")) {
+				if root := c.fnKey(enclosingRoot(lit)); root != cp+".(*directoryCache).Add" {
+					continue
+				}
+				done := resultN(a, 1)
+				cached := resultN(a, 0)
+				if done == nil || cached == nil {
+					continue
+				}
+				// done must be deferred (or called) only in a literal, and that literal's uses of `cached` precede
+				// every release of done is a defer inside the very function that writes the cached buffer out
+				// (a release in an enclosing function runs before an asynchronous commit has written anything)
+				isDone := func(v ssa.Value) bool {
+					if v == done {
+						return true
+					}
+					if p, ok := loadOf(stripConv(v)); ok {
+						if cr := cellRoot(p); cr != nil {
+							for _, st := range storesToCell(enclosingRoot(lit), cr) {
+								if stripConv(st.Val) == done {
+									return true
+								}
+							}
+						}
+					}
+					return false
+				}
+				writesCached := func(g *ssa.Function) bool {
+					for _, wc := range callsIn(g, func(id string, ci ssa.CallInstruction) bool {
+						o := calleeObj(ci)
+						return o != nil && o.Name() == "Write" && ci.Common().IsInvoke()
+					}) {
+						if derivesFromValue(wc.Common().Args[0], cached, 0) || derivesViaCell(wc.Common().Args[0], cached) {
+							return true
+						}
+					}
+					return false
+				}
+				good, nRel := true, 0
+				for _, g := range withAnon(lit) {
+					eachInstr(g, func(i ssa.Instruction) {
+						ci, ok := i.(ssa.CallInstruction)
+						if !ok || !isDone(ci.Common().Value) {
+							return
+						}
+						nRel++
+						if _, isDefer := i.(*ssa.Defer); !isDefer || !writesCached(g) {
+							good = false
+						}
+					})
+				}
+				good = good && nRel > 0
+				c.verdict(c.fnKey(lit)+":done-of-LRU.Add", a.Pos(), good, "reference to the cached buffer released by defer after it was written to the file", "the cached buffer's reference is released before it has been written out (eviction can recycle it mid-write)")
+				// the bytes persisted are those of the buffer the LRU returned (on a duplicate Add the writer's own buffer was just recycled)
+				persistOK, nWr := true, 0
+				for _, g := range withAnon(lit) {
+					for _, wc := range callsIn(g, func(id string, ci ssa.CallInstruction) bool {
+						o := calleeObj(ci)
+						return o != nil && o.Name() == "Write" && ci.Common().IsInvoke()
+					}) {
+						nWr++
+						if !derivesFromValue(wc.Common().Args[0], cached, 0) && !derivesViaCell(wc.Common().Args[0], cached) {
+							persistOK = false
+						}
+					}
+				}
+				c.verdict(c.fnKey(lit)+":persist-cached-buffer", a.Pos(), persistOK && nWr > 0, "the file receives the bytes of the buffer owned by the LRU", "the file is written from the writer's own buffer instead of the buffer the LRU returned: after a duplicate Add the persisted value is empty/foreign")
+			}
+		}
+	}
+
+}
+
+// clauseTTLOwnership: every TTL-cache reference taken in fs/layer is handed out or released (shared by C12 and C10).
+func clauseTTLOwnership(c *Ctx, id string) {
+	const lp = "fs/layer"
+	res := c.pkgFuncs(lp)
+	c.clause(id, "T2+T9", "every TTLCache.Get/Add in fs/layer: the release closure goes into a returned reference holding the value of the same cache call, or is called on every other path", 4)
+	refTypes := map[string]bool{lp + ".layerRef": true, lp + ".blobRef": true}
+	for _, f := range res {
+		for _, g := range callsIn(f, idIs("util/cacheutil.(*TTLCache).Get", "util/cacheutil.(*TTLCache).Add")) {
+			isGet := strings.HasSuffix(calleeID(g), ".Get")
+			val, done, flag := resultN(g, 0), resultN(g, 1), resultN(g, 2)
+			key := c.fnKey(f) + ":" + map[bool]string{true: "Get", false: "Add"}[isGet] + "-ownership"
+			if done == nil || val == nil {
+				c.bad(key, g.Pos(), "release closure or value discarded")
+				continue
+			}
+			// returns that hand the pair out
+			var handouts []ssa.Instruction
+			pairOK := true
+			for _, r := range realReturns(f) {
+				for _, v := range retVals(r, 0) {
+					al, ok := stripConv(v).(*ssa.Alloc)
+					if !ok || !refTypes[typeQName(al.Type())] {
+						continue
+					}
+					var dSt, vSt ssa.Value
+					for _, ref := range *al.Referrers() {
+						if fa, ok := ref.(*ssa.FieldAddr); ok {
+							for _, rr := range *fa.Referrers() {
+								if st, ok := rr.(*ssa.Store); ok {
+									if fieldName(fa) == "done" {
+										dSt = st.Val
+									} else {
+										vSt = st.Val
+									}
+								}
+							}
+						}
+					}
+					if dSt != nil && sameValue(dSt, done) {
+						handouts = append(handouts, r)
+						if vSt == nil || !derivesFromValue(vSt, val, 0) {
+							pairOK = false
+						}
+					}
+				}
+			}
+			callsOfDone := callsIn(f, func(id string, ci ssa.CallInstruction) bool { return sameValue(ci.Common().Value, done) })
+			// from the edge where the entry exists (Get: ok true; Add: always), every return is a handout or passed a call of done
+			var starts []ssa.Instruction
+			if isGet && flag != nil {
+				for _, e := range boolEdges(f, flag, true) {
+					starts = append(starts, f.Blocks[e.from].Succs[e.succ].Instrs[0])
+				}
+			} else {
+				// after the Add call
+				starts = append(starts, g)
+			}
+			leak := false
+			var lp2 []int
+			for _, s := range starts {
+				k := newCuts().addCalls(callsOfDone)
+				if k.instrs[s] {
+					continue
+				}
+				isLeakReturn := func(i ssa.Instruction) bool {
+					if !isReturn(i) {
+						return false
+					}
+					for _, h := range handouts {
+						if h == i {
+							return false
+						}
+					}
+					return true
+				}
+				if got, path := reach(f, s, isLeakReturn, k); got != nil {
+					leak = true
+					lp2 = path
+				}
+			}
+			c.verdict(key, g.Pos(), !leak && pairOK && len(handouts) > 0, "the reference is handed out together with the value of the same cache call, or released on every other path", firstNonEmpty(map[bool]string{true: "a path keeps the cache reference without handing it out or releasing it (the layer/blob can never be finalised): " + c.pathStr(f, lp2)}[leak], "the returned reference pairs the release closure with a value that is not the one returned by that cache call (the redundant, already closed object is handed out)"))
+			if !isGet && flag != nil {
+				// redundant object closed exactly on the !added edge
+				ne := boolEdges(f, flag, false)
+				arg := g.Common().Args[2]
+				var closes []ssa.CallInstruction
+				for _, ci := range callsIn(f, func(id string, ci ssa.CallInstruction) bool {
+					o := calleeObj(ci)
+					if o == nil || (o.Name() != "close" && o.Name() != "Close") {
+						return false
+					}
+					var recv ssa.Value
+					if ci.Common().IsInvoke() {
+						recv = ci.Common().Value
+					} else if len(ci.Common().Args) > 0 {
+						recv = ci.Common().Args[0]
+					}
+					return recv != nil && (sameValue(recv, stripConv(arg)) || derivesFromValue(arg, recv, 0))
+				}) {
+					if _, isDefer := ci.(*ssa.Defer); !isDefer {
+						closes = append(closes, ci)
+					}
+				}
+				good := len(closes) == 1 && len(ne) > 0
+				if good {
+					okp, _ := mustPass(f, closes[0], newCuts().addEdges(ne))
+					good = okp
+					// and on the !added edge it is always closed
+					for _, e := range ne {
+						first := f.Blocks[e.from].Succs[e.succ].Instrs[0]
+						if first != ssa.Instruction(closes[0]) {
+							if got, _ := reach(f, first, isReturn, newCuts().addInstr(closes[0])); got != nil {
+								good = false
+							}
+						}
+					}
+				}
+				c.verdict(c.fnKey(f)+":redundant-closed", g.Pos(), good, "the redundant object is closed exactly on the !added edge", "the redundant object of a duplicate Add is not closed exactly on the !added edge (leak, or the cached object is closed)")
+			}
+		}
+	}
+
 }
